@@ -128,7 +128,16 @@ def check(run, model, tier):
                 if not d or not d.startswith(selfn + '.') or d.count('.') != 1:
                     continue
                 attr = x.attr
-                if attr == lock or attr in cls.methods:
+                if attr == lock:
+                    continue
+                if attr in cls.methods:
+                    # a helper of the descriptor that reads the stored value (anything but the source-line classifiers) is a value access
+                    classifiers = {c_.func.attr for t_ in g.nodes if t_.kind == 'test' for c_ in t_.calls() if isinstance(c_.func, ast.Attribute) and dotted(c_.func.value) == selfn}
+                    if f is get and attr not in classifiers:
+                        ok = any(g.dominates(a, n) for a in acq)
+                        run.inst('LOCKSET.value-access', f, 'read through %s()' % attr, ok,
+                                 '' if ok else 'the stored value is read (through %s) on a path that did not first take the lock: an update in flight on another thread is not waited for' % attr,
+                                 node=x, obligation=True)
                     continue
                 depths = states[n]
                 if attr == flag:
